@@ -63,6 +63,11 @@ def compose(ctx, g, total):
     if not sustained or not nitems:
         raise vlib.Inconclusive("FileOps_Gen produced no sustained-batch shapes")
     nindex = {(i["idx"], i["mode"]): i for i in nitems}
+    lopen = {(i["idx"], i["len"], i["what"], i["mode"]): i for i in rd("longopen.ndjson")}
+    llink = {(i["idx"], i["len"], i["what"]): i for i in rd("longlink.ndjson")}
+    budgets = sorted(rd("budgets.ndjson"), key=lambda d: (d["kib"], d["op"], d["len"]))
+    if not lopen or not llink or not budgets:
+        raise vlib.Inconclusive("FileOps_Gen produced no long-path items")
     if not (states and oitems and litems and dpaths and shapes and longs):
         raise vlib.Inconclusive("FileOps_Gen produced no cases")
     key = lambda d: json.dumps(d, sort_keys=True)
@@ -82,6 +87,8 @@ def compose(ctx, g, total):
         return {"op": "delete", "p": rng.choice(dpaths)}
 
     def add(fs, ops):
+        fs.setdefault("ld", 0)
+        fs.setdefault("n", 0)
         cases.append({"id": len(cases) + 1, "cred": len(cases) % 2 == 1, "fs": fs, "ops": ops})
 
     def item(p, mode, mk):
@@ -117,6 +124,52 @@ def compose(ctx, g, total):
         add(fs, [{"op": "open", "many": n, "items": [item("target", "r", False)]},
                  {"op": "open", "many": n, "items": [item("a", "rw", False)]},
                  {"op": "open", "items": batch()}])
+    # long legal paths: failing items whose error texts add up to 8 / 16 / 24 / 30 KiB (below the 32 KiB
+    # frame, so the reply must still be answered item by item), between succeeding items
+    def plen(n, what):
+        return 2 + 251 * {1: 4, 2: 8, 3: 15}[n] + (10 if what == "miss" else 0)
+    for bi, bg in enumerate(budgets):
+        if ctx.quick() and bg["len"] != 1 + (bi // 3 + ctx.seed) % 3:      # one path length per (budget, operation)
+            continue
+        fs = dict(rng.choice([s for s in states if s["sub"] == "absent"]))
+        fs["ld"] = 1
+        room, n, idxs = bg["kib"] * 1024, bg["len"], list(range(1, 41))
+        rng.shuffle(idxs)
+        frame = 31000          # the command carries every path as well: keep it (and the reply) inside the 32 KiB frame
+        if bg["op"] == "open":
+            fail, cmd = [], 5 * 40
+            while idxs:
+                what = rng.choice(["dir", "miss"])
+                cost = plen(n, what) + 40
+                if room < cost or cmd + cost > frame:
+                    break
+                room -= cost
+                cmd += cost
+                fail.append(dict(lopen[(idxs.pop(), n, what, "r" if what == "miss" else rng.choice(["r", "w", "rw"]))]))
+            items = [item("target", "r", False)]
+            if cmd + plen(n, "miss") + 40 <= frame:                      # a succeeding item with a long path, if it fits
+                items.append(dict(lopen[(idxs.pop(), n, "miss", "rw")]))
+            items += fail + [item("dev", "r", False), item(rng.choice(["a", "b"]), rng.choice(["r", "w"]), False), item("target", "rw", False)]
+            ops = [{"op": "open", "items": items}, {"op": "open", "items": batch()}]
+        else:
+            fail, cmd = [], 5 * 60
+            while idxs:
+                cost = plen(n, "dir") + 50
+                if room < cost or cmd + cost > frame:
+                    break
+                room -= cost
+                cmd += cost
+                fail.append(dict(llink[(idxs.pop(), n, "dir")]))
+            links = [dict(rng.choice(litems))]
+            if cmd + plen(n, "miss") + 50 <= frame:
+                links.append(dict(llink[(idxs.pop(), n, "miss")]))
+                cmd += plen(n, "miss") + 50
+            links += fail + [dict(rng.choice(litems))]
+            if cmd + plen(n, "miss") + 50 <= frame:
+                links.append(dict(llink[(idxs.pop(), n, "miss")]))
+            links.append(dict(rng.choice(litems)))
+            ops = [{"op": "symlink", "links": links}, {"op": "open", "items": batch()}]
+        add(fs, ops)
     # sustained large batches on one long-lived environment (one case = one container, `rounds` batches)
     for sh in sustained:
         if (sh["rounds"] > 100) == ctx.quick():
@@ -131,6 +184,9 @@ def compose(ctx, g, total):
                 items[pos] = dict(nindex[(sh["files"] + 1 + rng.randrange(20), "r")])
             ops.append({"op": "open", "items": items})
         add(fs, ops)
+    ctx.cov["long_path_cases"] = sum(1 for c in cases if c["fs"].get("ld"))
+    if ctx.cov["long_path_cases"] < 8:
+        raise vlib.Inconclusive("long-path family not generated")
     cover = len(cases)
     while len(cases) < total:
         fs = dict(rng.choice(states))
@@ -141,6 +197,8 @@ def compose(ctx, g, total):
 def kind0(fs, p):
     if p == "n":
         return "numbered"
+    if p == "L":
+        return "longpath"
     return {"a": fs["a"], "b": fs["b"], "c": fs["c"] if fs["sub"] == "dir" else "noparent", "sub": fs["sub"]}.get(p, p)
 
 
@@ -152,8 +210,12 @@ def event_key(tr, at):
         return "ping-after:" + event_key(tr, at - 1)
     if e["e"] == "open":
         if len(e["items"]) > 8:
+            if any(i["p"] == "L" for i in e["items"]):
+                return "open:longpaths:n=%d:len=%d" % (len(e["items"]), max(i.get("len", 0) for i in e["items"]))
             return "open:long:n=%d:%s/%s" % (len(e["items"]), kind0(fs, e["items"][0]["p"]), e["items"][0]["mode"])
         return "open:" + ",".join("%s/%s%s" % (kind0(fs, i["p"]), i["mode"], "+mk" if i["mk"] else "") for i in e["items"])
+    if e["e"] == "symlink" and len(e["links"]) > 8:
+        return "symlink:long:n=%d:%s" % (len(e["links"]), "+".join(sorted({kind0(fs, l["link"]) for l in e["links"]})))
     if e["e"] == "symlink":
         return "symlink:" + ",".join("%s->%s" % (kind0(fs, l["link"]), l["to"]) for l in e["links"])
     if e["e"] == "delete":
@@ -239,7 +301,7 @@ def run(ctx):
     ctx.sample({"fs": traces[0]["fs"], "ev": traces[0]["ev"][:3]})
     ctx.assumptions += [
         "the check-then-open race inside handleOpen (lstat, then OpenFile) is not exercised: the API is serialized by the environment mutex and every process is killed before Execve returns, so no program runs while the host operates",
-        "requests whose reply exceeds the 32 KiB frame (very long error texts) are answered with one error for the whole call; not generated",
+        "requests whose command or reply exceeds the 32 KiB frame are answered with one error for the whole call and are not generated; error texts totalling 8-30 KiB (below the frame) are",
         "a batch longer than 253 items may be refused as a whole (one SCM_RIGHTS message), the protocol must stay intact",
         "container init is root in its user namespace: a mode-000 regular file can be opened (refusal is reported as DRIFT)",
     ]
